@@ -1511,6 +1511,19 @@ func (c *Ctx) ruleE5(rule string) {
 								return false
 							}
 						}
+						if t[0] != "ExitSalience" {
+							// a name or description is the text between the quotes, blanks included: two
+							// names that differ by a blank are two rules. Only the quotes may be cut off
+							switch cal.Name() {
+							case "Trim", "TrimPrefix", "TrimSuffix", "TrimLeft", "TrimRight":
+								k, isK := x.Origin(tt.Call.Args[1]).(*ssa.Const)
+								if !isK || k.Value == nil || k.Value.Kind() != constant.String || constant.StringVal(k.Value) != "\"" {
+									return false
+								}
+							default:
+								return false
+							}
+						}
 						return walk(tt.Call.Args[0], d+1)
 					}
 				case *ssa.Extract:
@@ -1566,7 +1579,7 @@ func (c *Ctx) ruleE5(rule string) {
 				ok = true
 			}
 		})
-		c.Check(rule, t[0], ok, f.Pos(), "%s must take the value from its own parse context's text", t[0])
+		c.Check(rule, t[0], ok, f.Pos(), "%s must take the value from its own parse context's text (a name or description: that text with only the quotes cut off)", t[0])
 	}
 	// literals
 	for _, t := range [][4]string{{"ExitInteger", "ParseInt", "10", "64"}, {"ExitRealLiteral", "ParseFloat", "64", ""}, {"ExitBooleanLiteral", "ParseBool", "", ""}} {
@@ -1618,7 +1631,9 @@ func (c *Ctx) ruleE5(rule string) {
 		})
 		c.Check(rule, "Constant."+n, ok, f.Pos(), "the constant must hold exactly the value it is given")
 	}
-	c.Min(rule, 18)
+	if c.only == nil {
+		c.Min(rule, 18)
+	}
 }
 
 // ---- E6 -----------------------------------------------------------------------
